@@ -86,7 +86,10 @@ def c09_specs(seed, tier):
                 fs.append("iter")
             autos["a_rand%d" % k] = fs
         for cname, feats in list(cfgs.items()) + list(autos.items()):
-            vs = mk_variants(ds, order="shuffled", rng=random.Random(3), implicit_ok=False, renames={0: "re named"})
+            ren = {0: "re named"}
+            if len(ds) >= 3:
+                ren[len(ds) - 1] = "re named"     # two variants share a name: every mode must pick the same one
+            vs = mk_variants(ds, order="shuffled", rng=random.Random(3), implicit_ok=False, renames=ren)
             out.append(EnumSpec("c9_%s_%s_%s" % (r, tag, cname), r, vs, list(feats), ident="En", tags={"C09", "%s_%s" % (r, tag), cname}))
     return out
 
@@ -276,6 +279,32 @@ def c15_specs():
                 vis = ev if ev is not None else "pub(in crate::%s)" % mod
                 vs = mk_variants(ds, implicit_ok=False)
                 out.append(EnumSpec(mod, "i16", vs, feats, ident="En", vis=vis, tags={"C15", "renamed", fvn, evn}))
+        # every iter mode under custom names (dependent features must use the custom names)
+        for im in (["range", "next_and_back", "table"] if shape == "g" else ["next_and_back", "table"]):
+            feats = []
+            for f in NAMEABLE:
+                ps = ['name="y_%s"' % f.lower()]
+                if f == "iter":
+                    ps.append('mode="%s"' % im)
+                if f in ("iter", "names"):
+                    ps.append('struct_name="Y%s"' % f.capitalize())
+                feats.append("%s(%s)" % (f, ", ".join(ps)))
+            feats += ['as_str(name="y_as_str", mode="table")'] if False else []
+            vs = mk_variants(ds, implicit_ok=False)
+            out.append(EnumSpec("v_%s_modes_%s" % (shape, im), "i16", vs, feats + ["Debug", "FromStr", "TryFrom"], ident="En", vis="pub", tags={"C15", "renamed", "itermode"}))
+            # default names for the user-requested helpers of range/iter (MIN, MAX, next, next_back requested by the user)
+            vs = mk_variants(ds, implicit_ok=False)
+            out.append(EnumSpec("v_%s_userhelpers_%s" % (shape, im), "i16", vs, ["MIN", "MAX", "next", "next_back", "as_str", 'iter(mode="%s")' % im, "range", "names"],
+                                ident="En", vis="pub", tags={"C15", "userhelpers"}))
+        # independent visibilities per feature on a pub enum
+        vr = random.Random(15 if shape == "g" else 16)
+        for k in range(6):
+            feats = []
+            for f in NAMEABLE:
+                v = vr.choice([None, "", "pub(crate)", "pub"])
+                feats.append(f if v is None else '%s(vis="%s")' % (f, v))
+            vs = mk_variants(ds, implicit_ok=False)
+            out.append(EnumSpec("v_%s_mixedvis_%d" % (shape, k), "i16", vs, feats, ident="En", vis="pub", tags={"C15", "mixedvis"}))
         # helpers only: features whose dependencies are auto-enabled, nothing named by the user
         for hn, feats in (("debug", ["Debug"]), ("iter_nab", ['iter(mode="next_and_back")']), ("from_table", ['FromStr(mode="table")']),
                           ("range_tbl", ['iter(mode="table")', "range"]), ("tryfrom", ["TryFrom"]), ("names", ["names"]), ("intostr", ["IntoStr"])):
@@ -450,6 +479,26 @@ KNOWN_HASH_SITES = {
 }
 
 
+def c17_specs():
+    """declarations that exercise every place where hash-map order could leak: sorted(..) features,
+    duplicate names in each string mode, many variants"""
+    out = []
+    k = 0
+    for sorted_feat in ("sorted(value)", "sorted(name)", "sorted(name, value)", None):
+        for ds in ([1, 2, 3, 7, 9, 10, 11, 12], list(range(40)), [-9, -8, -7, 0, 1, 50, 51, 52, 53, 90]):
+            for cname in ("ALL_MATCH", "ALL_TABLE"):
+                ren = {1: "dup", 3: "dup", 5: "dup", 6: "dup2", 7: "dup2"} if sorted_feat is None else None
+                vs = mk_variants(ds, implicit_ok=False, renames=ren)
+                if sorted_feat and "name" in sorted_feat:
+                    # identifiers ascending with the values: A < B < … < Z < a…; keep it name-sorted
+                    for i, v in enumerate(vs):
+                        v.ident = "N%03d" % i
+                feats = list(CFG[cname]) + ([sorted_feat] if sorted_feat else [])
+                out.append(EnumSpec("w_%d" % k, "i16", vs, feats, tags={"C17"}))
+                k += 1
+    return out
+
+
 def c17_audit():
     out = []
     src_root = os.path.join(REPO, "src")
@@ -530,6 +579,18 @@ def c18_specs(seed, tier):
                 r_ = random.Random(7 if order == "shuffled" else 8)
                 vs = mk_variants(ds, order="shuffled" if order.startswith("shuffled") else order, renames=ren, rng=r_, implicit_ok=False)
                 out.append(EnumSpec("p_%s_%s_%s" % (tag, cname.lower(), order), "i16", vs, list(CFG[cname]), tags={"C18", "perm"}))
+    # permutation of blocks (explicit start + implicit successors): the discriminant-to-name map is kept
+    blocks = [[("A", "0"), ("B", None)], [("C", "5"), ("D", None), ("E", None)], [("F", "-3"), ("G", None)], [("H", "20")]]
+    for oi, order in enumerate(([0, 1, 2, 3], [1, 0, 3, 2], [3, 2, 1, 0], [2, 3, 0, 1])):
+        for cname in ("ALL_TABLE", "ALL_MATCH"):
+            vs = []
+            for bi in order:
+                prev = None
+                for ident, sp in blocks[bi]:
+                    d = int(sp) if sp is not None else prev + 1
+                    vs.append(Variant(ident, d, sp))
+                    prev = d
+            out.append(EnumSpec("p_blk_%s_o%d" % (cname.lower(), oi), "i16", vs, list(CFG[cname]), tags={"C18", "perm"}))
     # repr independence: the same (non-negative) discriminants under every repr that can hold them
     for tag, ds in (("g", [3, 4, 5, 6]), ("h", [0, 1, 5, 100, 101, 127])):
         for cname in ("ALL_TABLE", "ALL_AUTO"):
@@ -689,9 +750,9 @@ def run_layer_s(scratch, tier, seed):
     rej, err = layer_i.compile_only(scratch, base_specs, name="base", target=target)
     res["base_rejected"] = {"rejected": rej, "error": err, "n": len(base_specs)}
     # 3. C17 bounded witness: expand the same crate in fresh processes (fresh hash seeds)
-    n = 3 if tier == "quick" else 8
+    n = 4 if tier == "quick" else 10
     texts = []
-    sub = (s09 + s18)[: 60 if tier == "quick" else 400]
+    sub = (s09 + s18)[: 40 if tier == "quick" else 400] + c17_specs()
     for i in range(n):
         path, dt = expand.expand(scratch, sub, name="det_x", target=target)
         texts.append(open(path).read())
